@@ -225,6 +225,22 @@ def run_for(prop, rule, model):
                     meta = json.load(open(mp))
                     if meta.get("property") == prop:
                         corpus.append(("seeded " + d, os.path.join(sd, d, "patch.diff"), bool(meta.get("expected_caught", True))))
+        # behaviour-preserving refactorings written by isolated sub-agents (each with an old-vs-new equivalence script, see refactored/):
+        # the check must not report a violation on them (exit 0, or exit 2 when the new shape is outside the recognised idioms)
+        rd = os.path.join(VERIF, "refactored")
+        refac = []
+        if os.path.isdir(rd):
+            for d in sorted(os.listdir(rd)):
+                pp = os.path.join(rd, d, "patch.diff")
+                if d.startswith(prop + "-") and os.path.exists(pp):
+                    refac.append((d, pp))
+        for i, (label, patch) in enumerate(refac):
+            root = _copy_src(tmp, f"r{i}")
+            r = subprocess.run(["patch", "-p1", "-s", "-d", root, "-i", patch], capture_output=True, text=True)
+            if r.returncode != 0:
+                out["preserving"].append(dict(variant="refactoring " + label, status="skipped: patch does not apply to the current tree"))
+                continue
+            jobs.append(("refactoring", "refactoring " + label, os.path.join(root, "src"), False))
         for i, (label, patch, expect) in enumerate(corpus):
             root = _copy_src(tmp, f"b{i}")
             r = subprocess.run(["patch", "-p1", "-s", "-d", root, "-i", patch], capture_output=True, text=True)
@@ -264,6 +280,8 @@ def run_for(prop, rule, model):
         for (cls, label, src, expect), (rc, first) in zip(jobs, res):
             if cls == "breaking":
                 out["breaking"].append(dict(variant=label, expected="fires", exit=rc, ok=(rc == 1) == expect, first=first))
+            elif cls == "refactoring":
+                out["preserving"].append(dict(variant=label, expected="no violation (exit 0, or 2 = shape not recognised)", exit=rc, ok=rc != 1, first=first))
             else:
                 out["preserving"].append(dict(variant=label, expected="silent", exit=rc, ok=rc == 0, first=first))
     finally:
